@@ -13,6 +13,7 @@ import (
 	"path/filepath"
 	"regexp"
 	"sort"
+	"strconv"
 	"strings"
 	"sync/atomic"
 	"syscall"
@@ -155,7 +156,29 @@ func ratOf(s string) (string, bool) {
 	return "n:" + r.RatString(), true
 }
 
-func canonJSON(v interface{}) string {
+// canonTime: the canonical form of a printed time (RFC3339 text, as -o json / -o csv / Value.String() write it) is its
+// instant, "t:<unix nanoseconds>", the same as CanonJV gives for a model time.
+func canonTime(s string) (string, bool) {
+	if len(s) < 20 || s[4] != '-' || s[10] != 'T' {
+		return "", false
+	}
+	tm, err := time.Parse(time.RFC3339, s)
+	if err != nil {
+		return "", false
+	}
+	return "t:" + strconv.FormatInt(tm.UnixNano(), 10), true
+}
+
+func canonJSON(v interface{}) string { return canonJSONT(v, false) }
+
+// canonJSONT with times=true reads every JSON string that is an RFC3339 text as a time (JSON output has no time type of its
+// own). Only for checks whose generated strings can never look like that.
+func canonJSONT(v interface{}, times bool) string {
+	if s, ok := v.(string); ok && times {
+		if c, ok := canonTime(s); ok {
+			return c
+		}
+	}
 	switch x := v.(type) {
 	case nil:
 		return "null"
@@ -174,7 +197,7 @@ func canonJSON(v interface{}) string {
 	case []interface{}:
 		parts := make([]string, len(x))
 		for i := range x {
-			parts[i] = canonJSON(x[i])
+			parts[i] = canonJSONT(x[i], times)
 		}
 		return "[" + strings.Join(parts, ",") + "]"
 	case map[string]interface{}:
@@ -185,7 +208,7 @@ func canonJSON(v interface{}) string {
 		sort.Strings(keys)
 		parts := make([]string, len(keys))
 		for i, k := range keys {
-			parts[i] = k + "=" + canonJSON(x[k])
+			parts[i] = k + "=" + canonJSONT(x[k], times)
 		}
 		return "{" + strings.Join(parts, ",") + "}"
 	}
@@ -210,6 +233,9 @@ func CanonJV(v gen.JV) string {
 		return "b:false"
 	case "str":
 		return "s:" + v.S
+	case "time":
+		// a time is compared as an instant: which zone octosql prints it in is not part of the value
+		return "t:" + strconv.FormatInt(v.I, 10)
 	case "list", "tuple":
 		parts := make([]string, len(v.L))
 		for i := range v.L {
@@ -221,7 +247,13 @@ func CanonJV(v gen.JV) string {
 }
 
 // ParseJSONOut decodes -o json output: one object per line.
-func ParseJSONOut(out string) ([]Row, error) {
+func ParseJSONOut(out string) ([]Row, error) { return parseJSONOut(out, false) }
+
+// ParseJSONOutT is ParseJSONOut for results that may hold Time values: RFC3339 strings (also inside lists) are decoded as
+// instants. Sound only where no generated String value can look like an RFC3339 text (C01-C05's string pools cannot).
+func ParseJSONOutT(out string) ([]Row, error) { return parseJSONOut(out, true) }
+
+func parseJSONOut(out string, times bool) ([]Row, error) {
 	var rows []Row
 	for i, line := range strings.Split(out, "\n") {
 		if line == "" {
@@ -235,7 +267,7 @@ func ParseJSONOut(out string) ([]Row, error) {
 		}
 		r := Row{}
 		for k, v := range m {
-			r[k] = canonJSON(v)
+			r[k] = canonJSONT(v, times)
 		}
 		rows = append(rows, r)
 	}
@@ -279,6 +311,12 @@ func ParseCSVOut(out string, kindOf func(col string) string) ([]Row, error) {
 					}
 				case "bool":
 					r[name] = "b:" + cell
+				case "time":
+					if c, ok := canonTime(cell); ok {
+						r[name] = c
+					} else {
+						r[name] = "t?:" + cell
+					}
 				default:
 					r[name] = "s:" + cell
 				}
